@@ -17,6 +17,9 @@ type SiteTable struct {
 	// HotFuncs: functions that touch package-level state, synchronisation
 	// primitives or start goroutines (syntactic scan).
 	HotFuncs []string `json:"hot_funcs"`
+	// SharedHot: functions that write a package-level variable or a variable
+	// captured by a closure (state that outlives the call).
+	SharedHot []string `json:"shared_hot_funcs"`
 	// Seen is filled in by the runs of a worker: yield sites reached.
 	Seen  []bool `json:"-"`
 	Sites []struct {
